@@ -73,12 +73,17 @@ func (b *Batch) Add(pkg, variant string, d *Decorated) *Item {
 		lang = "typescript"
 		it.File = filepath.Join(dir, "parser.ts")
 	}
-	res := ygo.Generate(lang, it.Text, it.File, ygo.Options{Fuel: 50_000_000, Unpack: IsUnpack(variant), Object: IsObject(variant)})
+	opt := ygo.Options{Fuel: 50_000_000, Unpack: IsUnpack(variant), Object: IsObject(variant)}
+	if variant == GoG {
+		opt.Dot = filepath.Join(dir, "graph.png")
+	}
+	res := ygo.Generate(lang, it.Text, it.File, opt)
 	it.Stdout = res.Stdout
 	if res.Err != nil || res.Panic != "" || res.Fuel {
 		it.GenDiag = res.Diag()
 		os.RemoveAll(dir)
 	}
+	os.Remove(filepath.Join(dir, "graph.png"))
 	b.Items = append(b.Items, it)
 	b.byPkg[pkg] = it
 	return it
